@@ -347,6 +347,7 @@ inductive PlanErr
   | redNoPeriod | redFallbackNotStatic | redNoSources | redNoUrn | alignNonNumeric
   | appendDup | dropAll | dropMissing | selectEmpty | selectDup | replaceMissing | overrideConflict
   | replaceDup | whereNonBool | whereOptional | staticEmpty | staticDup | joinDup | todsNotFound
+  | deltaNonNumeric | deltaOptional | rateNonNumeric | rateOptional
   deriving DecidableEq, Repr, Inhabited
 
 /-- tsquery_utils.go:12-30 `MergeCustomMeta` (override wins on key conflicts). -/
